@@ -482,7 +482,7 @@ def run(tier: str, seed: int) -> int:
     r.assumptions = ["graphql-core introspection of the harness-built schema is what a conformant remote endpoint returns"]
     r.floors = {"partitions": 100, "introspections": 50, "files_compared": 1000, "input_models_compared": 100, "failure_cases": 15}
     n = 500 if tier == "thorough" else 60
-    cases = [cw.make_case(seed, i, tier=tier) for i in range(n)]
+    cases = [cw.make_case(seed, i, tier=tier, dirty=(["schema.extend"] if i % 3 == 1 else [])) for i in range(n)]
     for i, c in enumerate(cases):
         if i % 4 == 3:
             c["deprecated_inputs"] = True
